@@ -127,3 +127,24 @@ func fromLinSubst(l *Lin, rec func(*Term) *Term) *Term {
 	}
 	return res
 }
+
+func (l *Lin) pretty(depth int) string {
+	s := ""
+	for _, e := range l.sorted() {
+		s += " + " + pretty(e.coef, depth) + "*" + pretty(e.atom, depth)
+	}
+	return s
+}
+
+// singleAtom: the atom p when the combination is exactly 1*p, else nil.
+func (l *Lin) singleAtom() *Term {
+	if len(l.t) != 1 {
+		return nil
+	}
+	for _, e := range l.t {
+		if e.coef.IsConst() && e.coef.Val.Cmp(big1) == 0 {
+			return e.atom
+		}
+	}
+	return nil
+}
